@@ -257,10 +257,14 @@ def eval_case(case: dict) -> dict:
                     pat = re.compile(r'\.%s\.%s = \[&[^\]]*\]\(([^)]*)\)' % (ev.direction, re.escape(ev.name)))
                     found = pat.findall(cc)
                     ok = False
+                    squeeze = lambda t: ''.join(t.split())   # noqa: E731
                     for params in found:
                         parts = [p.strip() for p in params.split(',')]
-                        if len(parts) > site['formal_index'] and \
-                                parts[site['formal_index']].split()[0].rstrip('&') == want_data:
+                        if len(parts) <= site['formal_index']:
+                            continue
+                        # "<type> <name>": the type may hold blanks itself (const T&)
+                        ptype = parts[site['formal_index']].rsplit(None, 1)[0]
+                        if squeeze(ptype) in (squeeze(want_data), squeeze(want_data) + '&'):
                             ok = True
                     if found and not ok:
                         viol('emitted-parameter-type-is-another-declaration',
